@@ -295,6 +295,10 @@ def run_property(prop, tier="quick", seed=0, meta=None, ctx=None, write=True, ex
         for d in st["detail"]:
             if d["status"] != "detected":
                 print("    %-28s %s %s" % (d["id"], d["status"], d["rules"]))
+    if "false_alarm_test" in extra_out:
+        fa = extra_out["false_alarm_test"]
+        print("  false-alarm test: %d behaviour-preserving variants, %d silent, %d not applicable, fired=%s"
+              % (fa["behaviour_preserving_variants"], fa["silent"], fa["not_applicable"], [x["id"] for x in fa["fired"]]))
     if errors:
         for e in errors:
             print("ANALYSIS-ERROR property=%s %s" % (prop, e))
